@@ -25,6 +25,7 @@ mod c02;
 mod c03;
 mod c04;
 mod c08;
+mod c12;
 mod c14;
 
 fn main() {
@@ -71,6 +72,7 @@ fn prop_fn(name: &str) -> Option<fn(&mut rep::Ctx)> {
         "c03" => c03::run,
         "c04" => c04::run,
         "c08" => c08::run,
+        "c12" => c12::run,
         "c14" => c14::run,
         _ => return None,
     })
